@@ -21,7 +21,7 @@ THEOREMS = ['zqthm', 'zqlem', 'zqdef']       # declared in the preamble of docum
 
 DEFAULTS = dict(cls=None, sections=True, maxsec=8, lists=True, tables=True, math=True, verbatim=True, floats=True, theorems=True,
                 footnotes=True, boxes=True, refs=True, labels=True, index=False, counters=False, appendix=False, probes=False,
-                depth=3, blocks=(1, 4), parts=False, eqnarray=False, cite=False, fonts=True, star=True)
+                depth=3, blocks=(1, 4), parts=False, eqnarray=False, cite=False, fonts=True, star=True, grouped_heads=0)
 
 
 HOSTILE_LABELS = ['index', 'a', 'b', 'c', 'all', 'sect0001', 'sect0002', 'sect0003', 's1', 's2', 'f001', 'f002', 'x1', 'x2', 'job-001', 'job-002',
@@ -321,6 +321,9 @@ class G(object):
             if o.get('late_labels') and r.random() < o['late_labels'] and node['c'] and node['c'][0]['t'] == 'para' and not node['star']:
                 # the label stands after the first paragraph of the unit (with its footnotes, boxes, formulas) instead of directly after the command
                 node['late_label'] = True
+        if o.get('grouped_heads') and len(node['c']) >= 2 and not node.get('late_label') and r.random() < o['grouped_heads']:
+            # the heading stands inside a group (an idiom for keeping a declaration local) that closes in the middle of the unit's body
+            node['grouped'] = r.choice(['{', '{', 'begingroup'])
         # down to \subparagraph; with the option deep6 also plasTeX's own seventh level, \subsubparagraph (no LaTeX numbering rule exists for it)
         if level < (6 if o.get('deep6') else 5) and self.nsec < o['maxsec']:
             have_direct = False
@@ -608,7 +611,11 @@ def p_sec(s):
     else:
         if s.get('label'):
             out += '\\label{%s}' % s['label']
-        out += '\n' + p_blocks(s['c'])
+        if s.get('grouped'):
+            op, cl = ('{\\small ', '}') if s['grouped'] == '{' else ('\\begingroup\\small ', '\\endgroup ')
+            out = op + out + '\n' + p_blocks(s['c'][:1]) + cl + SEP[0] + p_blocks(s['c'][1:])
+        else:
+            out += '\n' + p_blocks(s['c'])
     for sub in s['subs']:
         out += SEP[0] + p_sec(sub)
     return out
